@@ -111,23 +111,23 @@ Section Group.
   Fixpoint sort_pkgs (l : grp) : grp :=
     match l with [] => [] | x :: r => insert_pkg x (sort_pkgs r) end.
 
-  (* makeslice panics when the capacity is negative or cap*8 exceeds maxAlloc (2^48 on linux/amd64) *)
-  Definition max_cap : Z := 35184372088832.   (* 2^45 *)
-
   Definition cut_budget (budget : Z) (gs : list grp) : list grp :=
     if (Z.of_nat (List.length gs) >? budget)%Z then
       let cutoff := Z.to_nat (Z.max (budget - 1) 0) in
       firstn cutoff gs ++ [List.concat (skipn cutoff gs)]
     else gs.
 
-  (* ord3 : iteration order of replaceMap; ord4 : of maps.Values(byOrigin).
+  (* The slice of groups is sized by len(byOrigin) (fix d47e591: it used to be
+     make([]*group, 0, budget), which panicked for a negative or huge budget).
+     A negative budget therefore takes the cut-off branch with cutoff 0 and
+     yields ONE merged group (buildLayers rejects it before getting here).
+     ord3 : iteration order of replaceMap; ord4 : of maps.Values(byOrigin).
      (The iterations over byOrigin and byPackage that build byPackage and
      replaceMap only fill maps keyed by distinct names.) *)
   Definition group_with (ord3 : list (string * list string) -> list (string * list string))
       (ord4 : list grp -> list grp) (pkgs : list pkg) (budget : Z) : res (list grp) :=
     do merged <- merge_all (ord3 (replace_map pkgs)) (by_origin pkgs);
-    if (budget <? 0)%Z || (budget >? max_cap)%Z then Panic
-    else Ok (map sort_pkgs (cut_budget budget (sort_grps (ord4 merged)))).
+    Ok (map sort_pkgs (cut_budget budget (sort_grps (ord4 merged)))).
 
   Definition group (pkgs : list pkg) (budget : Z) : res (list grp) :=
     group_with (fun x => x) (fun x => x) pkgs budget.
